@@ -63,10 +63,28 @@ def main(d):
             return 1
         log("replay passes on the current tree")
         return 0
+    externs = None
+    if prop == "C02" and not kind.startswith("miri"):
+        # violations of the monitored run are only observable with the checked derive (the real one may fail silently: that is the point)
+        import e3
+        import e4
+        import enums
+        # rebuild the checked derive from /repo's CURRENT sources (cargo does it as a dependency of a one-subject workspace)
+        e4.prepare()
+        smoke = e3.Subj("smoke", enums.make_decl("i8", [1, 2, 9]), e3.Config(["into"]), derive_use=e4.DERIVE_USE)
+        _ws, _b, fails = e3.build_workspace("replay/c02", [smoke], derive_dep=e4.DEPS)
+        if fails:
+            log("the checked derive does not build: " + fails[0][1][-800:])
+            return 2
+        externs = e4.externs()
+        if len(externs) < 2:
+            log("the checked derive is not built (run `bin/check C02 --tier quick` once)")
+            return 2
+        src = src.replace("use enum_tools::EnumTools;", "use checked_derive::EnumToolsChecked as EnumTools;")
     runs = []
     se = ""
     for _ in range(2):
-        ok, err, rc, so, se = e2.run_program(src)
+        ok, err, rc, so, se = e2.run_program(src, externs=externs)
         runs.append((ok, rc, so))
         if not ok:
             break
